@@ -559,9 +559,9 @@ fn spelling_matrix(ctx: &mut Ctx) -> Vec<Attack> {
                 let holder = if k % 3 == 0 { KeyId::HolderEd } else { KeyId::HolderEc };
                 let (kb_aud, kb_nonce, exp_aud, exp_nonce) = if what == "aud" { (json!(y), json!("n-fixed"), x.to_string(), "n-fixed".to_string()) } else { (json!("https://verifier.example.org"), json!(y), "https://verifier.example.org".to_string(), x.to_string()) };
                 let (input, _) = hand_kb(fmt, holder, json!({"sub": "s"}), &[d.clone()], &kb_aud, &kb_nonce);
-                out.push(Attack { name: format!("{}-spelling-{}: expected {:?} presented {:?}", what, if i == j { "same" } else { "differs" }, x, y),
+                out.push(Attack { name: format!("{}-spelling-{}: expected {:?} presented {:?}", what, if x == y { "same" } else { "differs" }, x, y),
                                   args: VerifyArgs { input, fmt, resolver: Resolver::always(KeyId::IssuerEc), aud: Some(exp_aud), nonce: Some(exp_nonce) },
-                                  expect: if i == j { Expect::Accept } else { Expect::Reject }, origin: json!({"hand_built": "spelling matrix", "what": what, "expected": x, "presented": y}), nontrivial: true });
+                                  expect: if x == y { Expect::Accept } else { Expect::Reject }, origin: json!({"hand_built": "spelling matrix", "what": what, "expected": x, "presented": y}), nontrivial: true });
             }
         }
     }
